@@ -133,6 +133,16 @@ func judgeC08(rep *lib.Report, c *lib.Ctx, ln *printerLine, res *realResult, kas
 			}
 		}
 	}
+	// ... and no verb makes a redactable a "bad verb" operand (%p and %T are outside the statement): a report that names
+	// one of the redactable types is a reformatting, whatever stands inside it
+	if !formatHasVerb(ln.C.F, 'p') && !formatHasVerb(ln.C.F, 'T') {
+		for _, tn := range []string{"(redact.Redactable", "(markers.Redactable"} {
+			if i := bytes.Index(res.Out, []byte(tn)); i >= 2 && bytes.LastIndex(res.Out[:i], []byte("%!")) >= i-6 && bytes.LastIndex(res.Out[:i], []byte("%!")) >= 0 {
+				rep.Violate("compose:reformatted", fmt.Sprintf("%s: output %q reports a redactable operand as a bad verb", desc, res.Out), kase)
+				return
+			}
+		}
+	}
 	if got := []byte(redact.RedactableBytes(res.Out).Redact()); !bytes.Equal(got, expRed) {
 		rep.Violate("compose:redact-distributes", fmt.Sprintf("%s: Redact gives %q, piecewise %q", desc, got, expRed), kase)
 	}
